@@ -268,6 +268,8 @@ func main() {
 	switch os.Args[1] {
 	case "parse":
 		cmdParse(os.Args[2:])
+	case "tok":
+		cmdTok(os.Args[2:])
 	default:
 		fmt.Fprintln(os.Stderr, "unknown subcommand", os.Args[1])
 		os.Exit(2)
